@@ -197,10 +197,11 @@ func TestProp_Rotation(t *testing.T) {
 					sender = senderRec.actor
 				}
 				// inner request
-				rp.Inner = rapid.SampledFrom([]string{"fresh", "fresh", "fresh", "fresh", "replay", "existing-key", "token-nonce", "token-shaped-nonce", "expired", "bad-signature"}).Draw(t, "inner")
+				rp.Inner = rapid.SampledFrom([]string{"fresh", "fresh", "fresh", "fresh", "replay", "existing-key", "token-nonce", "token-shaped-nonce", "expired", "bad-signature", "window-needs-configured-skew"}).Draw(t, "inner")
 				counter++
 				nw := vkit.NewActor(fmt.Sprintf("N%d", counter))
 				inner := nw.Request()
+				needSkew := false
 				switch rp.Inner {
 				case "replay":
 					// Replay protection is the refusal of keys that already have a record;
@@ -241,6 +242,18 @@ func TestProp_Rotation(t *testing.T) {
 						info.Nonce = append(info.Nonce, 0x10, 0x01) // keep it non-empty and not 32 bytes long
 					}
 					inner = vkit.Sign(info, nw.CertPriv)
+				case "window-needs-configured-skew":
+					// the request's window misses now by half an hour on one side; the server
+					// application calls the rotation with one-hour clock skews, under which the
+					// request is valid
+					info := nw.Info()
+					if rapid.Bool().Draw(t, "expiredRecently") {
+						info.NotBefore, info.NotAfter = vkit.TS(time.Now().Add(-2*time.Hour)), vkit.TS(time.Now().Add(-30*time.Minute))
+					} else {
+						info.NotBefore, info.NotAfter = vkit.TS(time.Now().Add(30*time.Minute)), vkit.TS(time.Now().Add(2*time.Hour))
+					}
+					inner = vkit.Sign(info, nw.CertPriv)
+					needSkew = true
 				case "expired":
 					info := nw.Info()
 					info.NotBefore, info.NotAfter = vkit.TS(time.Now().Add(-48*time.Hour)), vkit.TS(time.Now().Add(-24*time.Hour))
@@ -280,7 +293,7 @@ func TestProp_Rotation(t *testing.T) {
 						break
 					}
 				}
-				expect := auth != nil && rp.Inner == "fresh"
+				expect := auth != nil && (rp.Inner == "fresh" || rp.Inner == "window-needs-configured-skew")
 				if auth != nil {
 					rp.AuthBy = auth.name
 				}
@@ -307,6 +320,10 @@ func TestProp_Rotation(t *testing.T) {
 				// the server application may pass its own options to the call, a state
 				// among them; the new record must still carry over the record's state
 				callOpts := w.O()
+				if needSkew {
+					callOpts = append(callOpts, nodeenrollment.WithNotBeforeClockSkew(-time.Hour), nodeenrollment.WithNotAfterClockSkew(time.Hour))
+					flags["window-valid-only-under-configured-skew"] = true
+				}
 				if rapid.IntRange(0, 2).Draw(t, "callerPassesState") == 0 {
 					callOpts = append(callOpts, nodeenrollment.WithState(vkit.UniqueStruct(fmt.Sprintf("caller-state-%d", len(hist)))))
 					flags["caller-passes-state-option"] = true
@@ -344,7 +361,7 @@ func TestProp_Rotation(t *testing.T) {
 					return
 				}
 				if rerr != nil {
-					if expect {
+					if expect && !needSkew { // (whether a skew-dependent window must be honored is C03's business; a refusal is fine here as long as nothing was registered)
 						vkit.Violate(t, prop, "C10/authenticated-refused/"+strings.ReplaceAll(rp.Via, " ", "-"), fmt.Sprintf("rotation authenticated by record %s (%s) was refused: %v", auth.name, rp.Via, rerr), detail)
 						return
 					}
